@@ -37,6 +37,7 @@ type Outcome struct {
 	Sample     interface{}
 	RealProc   int      // real-process executions
 	Infra      []string // trouble of the harness itself (never a property violation)
+	Notes      []string // remarks for the log and the evidence file (not trouble)
 }
 
 func (o *Outcome) addStats(s RunStats) {
@@ -149,6 +150,7 @@ type BatchResult struct {
 	Samples    []interface{}     `json:"samples"`
 	WallS      float64           `json:"wall_s"`
 	Infra      []string          `json:"infra_errors"`
+	Notes      []string          `json:"notes,omitempty"`
 	DetChecked int               `json:"determinism_rechecks"`
 	Race       bool              `json:"race_build"`
 }
@@ -202,6 +204,11 @@ func RunBatch(t *testing.T, ch Checker, tier string, batchSeed uint64, from, to 
 		br.RealProc += o.RealProc
 		br.Stats.Steps += 0
 		aggregate(&br.Stats, o.Stats)
+		for _, x := range o.Notes {
+			if len(br.Notes) < 20 {
+				br.Notes = append(br.Notes, fmt.Sprintf("seed %d: %s", seed, x))
+			}
+		}
 		for _, x := range o.Infra {
 			br.Infra = append(br.Infra, fmt.Sprintf("seed %d: %s", seed, x))
 		}
